@@ -4,9 +4,11 @@
 package c08
 
 import (
+	"fmt"
 	"os"
 
 	"github.com/vmware/go-ipfix/pkg/entities"
+	"github.com/vmware/go-ipfix/pkg/exporter"
 
 	"testing"
 	"time"
@@ -37,12 +39,15 @@ type Case struct {
 	Start  uint32 `json:"start"`
 	// Reuse: one Set object is reset and refilled for every send (as applications do to avoid
 	// allocations), instead of a fresh set per message.
-	Reuse bool   `json:"reuse,omitempty"`
+	Reuse bool `json:"reuse,omitempty"`
 	// IDBase: the three templates use ids IDBase..IDBase+2 (0: 256). A base below 256 lies in the
 	// range RFC 7011 reserves; the library does not refuse such ids, and as long as it transmits
 	// the sets they count like any other (a refusal ends the case without a verdict).
 	IDBase uint16 `json:"id_base,omitempty"`
-	Steps  []Step `json:"steps"`
+	// ZoneMin: the process's local time zone (time.Local) is a fixed zone this many minutes east of
+	// UTC while the session runs (0: left as it is). The export time is an absolute second count.
+	ZoneMin int    `json:"zone_min,omitempty"`
+	Steps   []Step `json:"steps"`
 }
 
 var rec *ev.Recorder
@@ -58,6 +63,9 @@ func TestMain(m *testing.M) {
 		{glue.UserField(ref.TI64)},
 	}
 	if rp := ev.LoadReplay(); rp != nil {
+		if rp.Phase == "stamps" {
+			ev.RunReplay(rp, runStamp)
+		}
 		ev.RunReplay(rp, runCase)
 	}
 	rec = ev.New("C08", "sessions of 1..40 successful SendSet calls (template sets; data sets of 1..200 records of three templates with ids from 256, 1000, 65533 or the reserved range below 256) over tcp and udp, the sequence counter started at 0 or at 2^32-k (k in 0..300, through the verif setter) so that the wrap is crossed; each captured header is parsed by the reference codec; non-trivial = at least two data sets of different sizes with a template set between them; distinct by hash of the case",
@@ -67,7 +75,29 @@ func TestMain(m *testing.M) {
 	os.Exit(code)
 }
 
+// lost: a udp run ended without a verdict because a datagram did not arrive; the session is run
+// again, and three losses in a row are a message reported sent and never written.
+var lost string
+
+func runRetry(c Case) *ev.Failure {
+	for attempt := 1; ; attempt++ {
+		lost = ""
+		f := runCase(c)
+		if f != nil || lost == "" {
+			return f
+		}
+		if attempt == 3 {
+			return ev.Failf("over udp, three times in a row: %s", lost)
+		}
+	}
+}
+
 func runCase(c Case) *ev.Failure {
+	if c.ZoneMin != 0 {
+		old := time.Local
+		time.Local = time.FixedZone("verif", c.ZoneMin*60)
+		defer func() { time.Local = old }()
+	}
 	peer, err := exph.NewPeer(c.Proto, false)
 	if err != nil {
 		return nil
@@ -186,6 +216,7 @@ func runCase(c Case) *ev.Failure {
 		}
 		if !peer.WaitMessages(sent, total, 20*time.Second) {
 			if c.Proto == "udp" {
+				lost = fmt.Sprintf("step %d: SendSet reported %d bytes sent, the datagram did not arrive", i, n)
 				return nil
 			}
 			return ev.Failf("step %d: message did not arrive", i)
@@ -225,6 +256,7 @@ func genCase(t *rapid.T) Case {
 		Domain: rapid.SampledFrom([]uint32{0, 1, 42, 0xFFFFFFFF, 0x01020304}).Draw(t, "domain"),
 	}
 	c.Reuse = rapid.Bool().Draw(t, "reuse")
+	c.ZoneMin = rapid.SampledFrom([]int{0, 0, 0, 330, -480, 765, -1}).Draw(t, "zone_min")
 	c.IDBase = rapid.SampledFrom([]uint16{0, 0, 0, 1000, 65533, 253, 10}).Draw(t, "id_base")
 	if rapid.Bool().Draw(t, "nearwrap") {
 		c.Start = uint32(0x100000000 - uint64(rapid.IntRange(0, 300).Draw(t, "k")))
@@ -288,13 +320,78 @@ func classify(c Case) (bool, []string) {
 	return nt, cl
 }
 
+// Stamp is one direct call of the exported message builder with a given instant.
+type Stamp struct {
+	Sec     int64  `json:"sec"`      // seconds since the epoch, 0 .. 2^32-1
+	Nsec    int64  `json:"nsec"`     // 0 .. 999999999
+	ZoneMin int    `json:"zone_min"` // the location the instant is expressed in
+	Seq     uint32 `json:"seq"`
+	Domain  uint32 `json:"domain"`
+	NRecs   int    `json:"nrecs"`
+}
+
+// runStamp: CreateIPFIXMsg(set, domain, seq, t) writes exactly (seq, domain, t's second) into the
+// header, for every instant the 32-bit field can hold, whatever location t is expressed in.
+func runStamp(c Stamp) *ev.Failure {
+	fields := templates[0]
+	recs := make([][]ref.Value, c.NRecs)
+	for k := range recs {
+		recs[k] = []ref.Value{{U: uint64(k)}, {U: uint64(k) * 3}}
+	}
+	set, err := exph.DataSet(256, fields, recs, 0)
+	if err != nil {
+		return ev.Failf("building the set: %v", err)
+	}
+	set.UpdateLenInHeader()
+	t := time.Unix(c.Sec, c.Nsec).In(time.FixedZone("z", c.ZoneMin*60))
+	msg, err := exporter.CreateIPFIXMsg(set, c.Domain, c.Seq, t)
+	if err != nil {
+		return ev.Failf("CreateIPFIXMsg: %v", err)
+	}
+	h, sets, err := ref.ParseMessage(msg)
+	if err != nil || len(sets) != 1 {
+		return ev.Failf("CreateIPFIXMsg output is not a well-formed message: %v", err)
+	}
+	if int64(h.ExportTime) != c.Sec {
+		return ev.Failf("CreateIPFIXMsg at instant %d s (%s): export time %d in the header", c.Sec, t.Format(time.RFC3339), h.ExportTime)
+	}
+	if h.Seq != c.Seq || h.Domain != c.Domain {
+		return ev.Failf("CreateIPFIXMsg(seq %d, domain %d): header carries seq %d, domain %d", c.Seq, c.Domain, h.Seq, h.Domain)
+	}
+	return nil
+}
+
 func TestC08(t *testing.T) {
+	if !ev.Rapid(t, rec, "stamps", rec.Scale(3000, 300000), func(t *rapid.T) Stamp {
+		c := Stamp{Nsec: rapid.SampledFrom([]int64{0, 1, 499999999, 999999999}).Draw(t, "nsec"),
+			ZoneMin: rapid.SampledFrom([]int{0, 0, 330, -480, 765, 840, -720}).Draw(t, "zone_min"),
+			Seq:     rapid.Uint32().Draw(t, "seq"), Domain: rapid.Uint32().Draw(t, "domain"), NRecs: rapid.IntRange(1, 3).Draw(t, "nrecs")}
+		if rapid.Bool().Draw(t, "edge") {
+			// around the signed and unsigned 32-bit second counts, year ends, the epoch
+			base := rapid.SampledFrom([]int64{0, 1 << 31, 1<<32 - 1, 1<<31 - 1, 946684800, 1735689600, 4102444800, 2147483648 + 86400*365}).Draw(t, "base")
+			c.Sec = base + int64(rapid.IntRange(-3, 3).Draw(t, "delta"))
+		} else {
+			c.Sec = rapid.Int64Range(0, 1<<32-1).Draw(t, "sec")
+		}
+		if c.Sec < 0 {
+			c.Sec = 0
+		}
+		if c.Sec > 1<<32-1 {
+			c.Sec = 1<<32 - 1
+		}
+		return c
+	}, func(c Stamp) *ev.Failure {
+		rec.Case(ev.Hash(c), c.Sec >= 1<<31 || c.ZoneMin != 0, "direct_stamp")
+		return runStamp(c)
+	}) {
+		return
+	}
 	ev.Rapid(t, rec, "sessions", rec.Scale(2500, 1500000), genCase, func(c Case) *ev.Failure {
 		nt, cl := classify(c)
 		rec.Case(ev.Hash(c), nt, cl...)
 		if len(c.Steps) <= 5 {
 			rec.Sample("session", c)
 		}
-		return runCase(c)
+		return runRetry(c)
 	})
 }
